@@ -753,3 +753,57 @@ def memory_all_versions_contract():
                                   'methods': {('.get', 'datamap'): m_data_get, ('.extend', 'litlist'): m_extend}},
                     truthy_handlers={'mapped': lambda x, v: HAS_ID},
                     assumptions=['callee contract apply_common_filters (proved); the representation invariant of _data is a precondition here (its preservation is the contract of _ObjectFamily.add / _add in C11)'])
+
+
+# ------------------------------------------------------------------ MemorySource.get: the newest version held under the id, if it passes the filters in force; otherwise nothing
+LATEST = z3.String('the newest version held under stix_id')
+
+
+def memory_get_contract():
+    av = memory_all_versions_contract()
+
+    def attr_latest(x, o, p, site): yield p, Val('objtok', LATEST)          # _ObjectFamily.latest_version: the version with the greatest modified time (representation invariant, proved for _ObjectFamily.add)
+
+    def narrow_mapped(x, e, p):
+        # `stix_obj = mapped_value` for an unversioned object: that object is the newest (only) one held
+        yield p, Val('objtok', LATEST)
+
+    def h_acf(x, e, p, site):
+        for p1, vs in x.ev_seq(list(e.args), p):
+            if isinstance(vs, Exc): yield p1, vs; continue
+            objs, fl = vs
+            if not (objs.sort == 'litlist' and len(objs.x) == 1 and objs.x[0].sort in ('objtok', 'mapped')) or fl.sort != 'set': raise Unsupported(site + f' apply_common_filters({objs.sort}, {fl.sort})')
+            tok = objs.x[0].t if objs.x[0].sort == 'objtok' else LATEST          # an unversioned object held directly under the id is the newest (only) one
+            objs = Val('litlist', x=[Val('objtok', tok)])
+            u = z3.FreshConst(E.S, 'u')
+            x.oblige('call(apply_common_filters): the filters applied are exactly the source\'s own and the ones handed down', p1.pc,
+                     z3.ForAll([u], fl.t[u] == z3.Or(SELF_F[u], z3.And(z3.Not(DOWN_NONE), DOWN_F[u]))), p1.exact, 'call-requires')
+            yield p1, Val('filtered1', (objs.x[0].t, SATALL(fl.t, objs.x[0].t)))
+
+    def h_next(x, e, p, site):
+        if len(e.args) != 2 or ast.unparse(e.args[1]) != 'None': raise Unsupported(site + ' next(...) shape')
+        for p1, v in x.ev(e.args[0], p):
+            if isinstance(v, Exc): yield p1, v; continue
+            if v.sort != 'filtered1': raise Unsupported(site + ' next of ' + v.sort)
+            tok, cond = v.t
+            yield p1, Val('opt:objtok', (z3.Not(cond), Val('objtok', tok)))
+
+    def ens(a, r):
+        f = z3.FreshConst(E.S, 'f')
+        union = z3.Lambda([f], z3.Or(SELF_F[f], z3.And(z3.Not(DOWN_NONE), DOWN_F[f])))
+        if r.sort == 'none': none, tok = z3.BoolVal(True), LATEST
+        elif r.sort == 'objtok': none, tok = z3.BoolVal(False), r.t
+        elif r.sort == 'opt:objtok': none, tok = r.t[0], r.t[1].t
+        else: return z3.BoolVal(False)
+        return z3.And(z3.Not(none) == z3.And(HAS_ID, SATALL(union, LATEST)), z3.Implies(z3.Not(none), tok == LATEST))
+    return Contract('stix2/datastore/memory.py::MemorySource.get', props=['C11', 'C12'],
+                    params={'self': Val('memsource', x={}), 'stix_id': 'str', '_composite_filters': av.params['_composite_filters']},
+                    ensures=[('the newest version held under the id when it passes the source\'s own and the handed-down filters, otherwise nothing', ens)],
+                    raises={}, handlers={'apply_common_filters': h_acf, 'isinstance:_ObjectFamily': av.handlers['isinstance:_ObjectFamily'], 'itertools.chain': av.handlers['itertools.chain'],
+                                         'list': av.handlers['list'], 'next': h_next},
+                    registry_ext={'attrs': {('memsource', 'filters'): av.registry_ext['attrs'][('memsource', 'filters')], ('memsource', '_data'): av.registry_ext['attrs'][('memsource', '_data')],
+                                            ('mapped', 'latest_version'): attr_latest},
+                                  'methods': {('.get', 'datamap'): av.registry_ext['methods'][('.get', 'datamap')]}},
+                    truthy_handlers={'mapped': lambda x, v: HAS_ID, 'objtok': lambda x, v: z3.BoolVal(True)},
+                    assumptions=['callee contract apply_common_filters (proved); _ObjectFamily.latest_version carries the greatest modified time of the family (representation invariant, proved for '
+                                 '_ObjectFamily.add); a STIX object (a non-empty mapping) is truthy'])
